@@ -141,7 +141,7 @@ THOROUGH_CONFIGS: List[Dict[str, Any]] = [
 def match_scenarios(I: Interp, file_types=("assembly", "binary"), return_modes=("bool", "matched_addrs_list",
                     "all_instructions_string"), search_modes=("first_find", "all_finds"), only_addrs=(False, True),
                     configs=({}, {"valid_addr_range": {"min": Sym("RANGE_MIN"), "max": Sym("RANGE_MAX")}}),
-                    repeat: int = 1, feed=None) -> List[MatchScenario]:
+                    repeat: int = 1, feed=None, macros: Value = NONE) -> List[MatchScenario]:
     """MasterOfPuppets(match_config).perform_matching() for every combination; `repeat` > 1 calls
     perform_matching several times on the same object (results of the last call are returned)."""
     p = I.p
@@ -164,7 +164,7 @@ def match_scenarios(I: Interp, file_types=("assembly", "binary"), return_modes=(
                 "input_file": Str((Hole("INPUT_FILE", "path", True),)),
                 "input_file_type": E("InputFileType", ft), "return_only_address": TRUE if oa else FALSE,
                 "return_mode": E("MatchingReturnMode", rm), "matching_mode": E("MatchingSearchMode", sm),
-                "macros": NONE}, None, None)
+                "macros": macros}, None, None)
             o = I.construct(mop, [], {"match_config": mc}, None, None)
             I.run.user["mop"] = o
             I.run.user["init_events"] = len(I.run.events)
